@@ -212,13 +212,16 @@ PROPS["C12"] = dict(
     gens=["store-c12"],
     rule=STORE_RULE + "with legacy duplicate versions injected at random positions (a version written without the write-time equality check, as old hubs did) and deduplicating "
          "compaction runs with flush thresholds 1, 2, 3, 100000 in between; after every op all read APIs (listing, full and latest-only feeds, lookups now and pinned, both query "
-         "directions) — the model runs its own compaction, so before/after equality and the exact feed are both checked; non-trivial = at least 3 versions and 2 queries",
+         "directions) — the model runs its own compaction, so before/after equality and the exact feed are both checked; about a third of the compactions run in a child process that is "
+         "killed right after its n-th flush transaction (crash point inserted by tools/instr into flushDeletes) or before the first: after the restart listing, latest-only feed and lookups must "
+         "answer as before the compaction, the full feed must be readable and have lost nothing but entries, and a second compaction run finishes the job; non-trivial = at least 3 versions and 2 queries",
     trusted=STORE_TRUST,
-    assumptions=["writers racing the compactor and kills between flushes are not in the quick tier (D14: compaction rewrites latest pointers without the dataset lock)"],
+    assumptions=["writers racing the compactor are not exercised (D14: compaction rewrites latest pointers without the dataset lock)"],
     level_text="Proof (spec level): removing every version whose content equals the version kept before it preserves the content of the latest version (latest_preserved) and of the "
                "latest version of every prefix of the history, i.e. of every pinned lookup (pinned_preserved); what remains is an order-preserving sublist without adjacent duplicates "
                "(feed_sublist, no_adjacent_dups). The key-level model of the compactor (version, change-log, latest-pointer and reference keys) is compared with the real compactor "
-               "on histories with injected duplicates for all flush thresholds; its eval/flush shape is a regenerated fact. PARTIAL for racing writers (finding D14) and kills between flushes.",
+               "on histories with injected duplicates for all flush thresholds, including compactors killed between flushes; its eval/flush shape is a regenerated fact. PARTIAL for racing writers (finding D14); "
+               "kills between flushes are covered by the fault runs, not by a theorem.",
     level_note="Trusted: Lean kernel, factgen, badger. `recorded` of a removed duplicate is replaced by its identical predecessor's and is not compared.",
 )
 
